@@ -76,6 +76,7 @@ extern void            bufr_copy_descriptor           ( BufrDescriptor *dest, Bu
 extern BufrValue      *bufr_mkval_for_descriptor      ( BufrDescriptor * );
 extern void            bufr_print_descriptor          ( char *str, BufrDescriptor *bdsc );
 extern int             bufr_print_dscptr_value        ( char *outstr, BufrDescriptor *cb );
+extern int             bufr_snprint_dscptr_value      ( char *outstr, size_t size, BufrDescriptor *cb );
 extern ValueType       bufr_encoding_to_valtype       ( BufrValueEncoding * );
 extern ValueType       bufr_datatype_to_valtype       ( BufrDataType type, int nbits, int scale );
 
